@@ -43,7 +43,8 @@ FEATS = [1, 3, 4, 5, 8, 12, 16, 31, 32, 33, 64, 100, 128, 129, 256, 512]
 DT = [torch.float32, torch.float16, torch.bfloat16]
 MANT = {torch.float32: 24, torch.float16: 11, torch.bfloat16: 8}
 ACTS = ["float", "qint8", "qfloat8_e4m3fn", "qfloat8_e5m2"]
-WEIGHTS = ["qint8", "qint8", "qfloat8_e4m3fn", "qfloat8_e5m2", "qint8_pt", "qint4", "qint2", "qint4_g", "qint2_g"]
+WEIGHTS = ["qint8", "qint8", "qfloat8_e4m3fn", "qfloat8_e5m2", "qint8_pt", "qint4", "qint2", "qint4_g", "qint2_g",
+           "qint8_lastaxis", "qfloat8_lastaxis"]  # *_lastaxis: one scale per input feature (scales along the contraction)
 
 
 def ints(rng, shape, lo, hi):
@@ -102,6 +103,8 @@ def build(ctx, oq, rng, cfg):
     elif wk == "qint8_pt":
         sc = (wf.abs().max().to(F64) / 127).to(wd)
         w = oq.quantize_activation(wf, qt["qint8"], sc)
+    elif wk.endswith("_lastaxis"):
+        w = oq.quantize_weight(wf, qt["qint8" if wk.startswith("qint8") else "qfloat8_e4m3fn"], -1)
     else:
         w = oq.quantize_weight(wf, qt[wk], 0)
     # memory layout of the activations: the source that is quantized is contiguous, the operand handed to the kernels is a
@@ -366,7 +369,7 @@ def run_case(ctx, oq, cfg, qmm, rng):
                     judge(ctx, dict(cfg, bias=False), "mm:per_axis_l%d_r%d" % (la, ra), out, left, right, None,
                           transpose_w=False)
     # 3. the custom operator and each route function on the raw operands
-    if not lowbit and type(fp.unwrap_param(w)).__name__ == "QBytesTensor":
+    if not lowbit and type(fp.unwrap_param(w)).__name__ == "QBytesTensor" and not cfg["wk"].endswith("_lastaxis"):
         wi = fp.inner(fp.unwrap_param(w))[0]
         wdat, wsc = oracles.plain(wi["_data"]), oracles.plain(wi["_scale"])
         if hasattr(x, "qtype"):
@@ -413,6 +416,14 @@ def run(ctx):
                        mode="exact" if rng.random() < 0.45 else "realistic",
                        xlay=["contiguous", "contiguous", "contiguous", "transposed", "transposed", "sliced", "expanded_col",
                              "expanded_row"][int(rng.integers(8))])
+            if wk.endswith("_lastaxis"):
+                cfg["mode"] = "realistic"
+                if K < 2:
+                    cfg["K"] = K = 2
+                if rng.random() < 0.5:
+                    cfg["N"] = N = K  # square: the number of scales equals the number of output features
+                elif N < 2:
+                    cfg["N"] = N = 2
             if wk.endswith("_g"):
                 divs = [d for d in (2, 4, 8, 16, 32, 64, 128) if K % d == 0 and d <= K]
                 if not divs:
